@@ -143,6 +143,9 @@ def run(ctx):
         v = rnd.choice([1.0, 0.8, 0.5])
         x = optical_signal(np.random.RandomState(400 + it).randn(n) + 0j)
         vdn, kLv = 10 ** rnd.uniform(-5, -3) if it % 2 else 10 ** rnd.uniform(-5, -4), rnd.uniform(0.1, 8)
+        if it % 5 == 4:
+            kLv = [12.0, 16.0, 12.0, 14.0][(it // 5) % 4]      # strong gratings (the documentation's own example uses kL = 16, vdneff = 1e-4)
+            vdn = [5e-4, 1e-4, 4e-4, 3e-5][(it // 5) % 4]      # ... where RK45 at its default tolerances is still accurate to 3e-3 (it is not beyond: 0.1 at vdneff = 1e-3)
         det = rnd.uniform(-0.2, 0.2) * fs
         lD = C0 / (gv.f0 + det)
         route = it % 3
@@ -156,7 +159,7 @@ def run(ctx):
         g = np.sqrt((kap ** 2 - d ** 2).astype(complex))
         Rcf = (np.sinh(g * Lm) ** 2 / (np.cosh(g * Lm) ** 2 - d ** 2 / kap ** 2)).real
         dev = float(np.max(np.abs(np.abs(H) ** 2 - Rcf))) if H.shape == Rcf.shape and np.all(np.isfinite(H)) else 1.0
-        events.append({"kind": "spectrum", "dev_ppm": int(round(dev * 1e6)), "weak": bool(vdn <= 2e-4)})
+        events.append({"kind": "spectrum", "dev_ppm": int(round(dev * 1e6)), "weak": bool(vdn <= 2e-4 and kLv <= 8), "strong": bool(kLv > 8)})
         meta.append(("spectrum", route))
         far = np.abs(d) / kap > 10                       # side lobes far from the stop band: small, but they carry a definite energy
         if H.shape == Rcf.shape and far.sum() >= 8 and float(np.sum(Rcf[far])) > 1e-4:
